@@ -810,6 +810,7 @@ func (x *Exec) Verify(f *ssa.Function, c *FuncContract) {
 		x.topKey = x.keyOverride
 	}
 	x.analyzeLoops(f)
+	x.checkClauseSites(f, c)
 	x.pathCount = 0
 	x.retCount = 0
 	x.curWrap64 = c != nil && c.Wrap64
@@ -1824,4 +1825,64 @@ func (x *Exec) allocBound() int64 {
 		return x.cs.AllocBound
 	}
 	return 1 << 30
+}
+
+// checkClauseSites: every site a contract clause names (call f#k, return k, loop k) must
+// exist in the function's current code. A clause about a site that is gone would otherwise
+// be skipped silently, and whatever it asserted would no longer be checked.
+func (x *Exec) checkClauseSites(f *ssa.Function, c *FuncContract) {
+	if c == nil || c.IsFamily {
+		return
+	}
+	t := sites(f)
+	have := map[string]bool{}
+	prefix := map[string]bool{}
+	for _, n := range t.names {
+		have[n] = true
+		if i := strings.LastIndex(n, "#"); i >= 0 {
+			prefix[n[:i]] = true
+		}
+	}
+	missing := func(kind, key string) {
+		x.errors = append(x.errors, fmt.Sprintf("%s: %s clause names site %s, which %s no longer has (the code changed shape; the clause is not checked)", c.Where, kind, key, x.topKey))
+	}
+	check := func(kind, key string) {
+		if strings.HasSuffix(key, "#*") {
+			if !prefix[strings.TrimSuffix(key, "#*")] {
+				missing(kind, key)
+			}
+			return
+		}
+		if !have[key] {
+			missing(kind, key)
+		}
+	}
+	var keys []string
+	for k := range c.Calls {
+		keys = append(keys, "call "+k)
+	}
+	for k := range c.CallUses {
+		keys = append(keys, "call-use "+k)
+	}
+	for k := range c.CallBinds {
+		keys = append(keys, "call-bind "+k)
+	}
+	for k := range c.Rets {
+		keys = append(keys, "return "+k)
+	}
+	sort.Strings(keys)
+	for _, k := range keys {
+		parts := strings.SplitN(k, " ", 2)
+		check(parts[0], parts[1])
+	}
+	var ls []int
+	for k := range c.Loops {
+		ls = append(ls, k)
+	}
+	sort.Ints(ls)
+	for _, k := range ls {
+		if k >= len(x.loops) {
+			missing("loop", fmt.Sprintf("loop %d", k))
+		}
+	}
 }
